@@ -28,14 +28,24 @@ def reads(rng, b, k, spec):
 def build(rng, facts, name):
     spec = rng.choice(sorted(facts)); b = Builder(name)
     kp, kn = rng.choice(KINDS), rng.choice(KINDS); exact = rng.random() < 0.4
+    # a quarter of the histories use weights that are not dyadic (0.1, 0.3, 1.1): float sums then depend on the order of summation, so a
+    # read that recomputes a cached total is visible; only the array-backed kinds, whose observers sum in a fixed order whatever was read
+    # before (hash-map iteration and paginated compaction legitimately reorder float sums), and without the exact-arithmetic model
+    arbitrary = rng.random() < 0.25
+    if arbitrary: kp, kn = rng.choice(["dense", "low:16", "high:16", "dense"]), rng.choice(["dense", "low:16", "high:16"]); b.no_model = True
+    wpool = [None, 0.1, 0.3, 1.1, 0.7, None] if arbitrary else [None, None, None, 0.5, 2.0]
     b.knew("k", spec, kp, kn, exact)
     b.knew("t", spec, kp, kn, exact)            # twin: same mutations, never read in between
     b.knew("src", spec, "pag", rng.choice(STORES), exact)     # a source whose encoding has unit-weight index blocks
     for v in rand_values(rng, rng.choice([3, 12, 40]), -2, 2): b.kadd("src", v)
     b.emit("kenc sb src 0", "ok")
+    if exact and kp in ("sparse", "pag") and kn in ("sparse", "pag") and rng.random() < 0.4:          # a running sum beyond MaxFloat64: GetSum then comes from the uncompensated fallback field
+        mx = facts[spec]["max"]
+        for v in (0.7 * mx, 0.9 * mx, 42.0, rng.choice([1.0, -0.5 * mx])):
+            b.kadd("k", v); b.kadd("t", v)
     for step in range(rng.randint(1, 5)):
         for v in rand_values(rng, rng.choice([1, 3, 10, 70]), -2, 2):
-            w = rng.choice([None, None, None, 0.5, 2.0]); b.kadd("k", v, w); b.kadd("t", v, w)
+            w = rng.choice(wpool); b.kadd("k", v, w); b.kadd("t", v, w)
         if not b.vals["k"]: continue
         j0 = b.emit("kobs k"); jq = b.emit("q k %s" % f2h(0.3))
         reads(rng, b, "k", spec)
